@@ -64,7 +64,8 @@ func applyFilter(jqFilter string, fl filter.Filter, filterFn func(obj *unstructu
 		if err != nil {
 			return nil, fmt.Errorf("jqFilter: %v", err)
 		}
-		res.FilterResult = filtered
+		// ObjectAndFilterResult.Map expects the jq output as JSON text.
+		res.FilterResult = string(bytes)
 		res.Metadata.Checksum = utils_checksum.CalculateChecksum(string(bytes))
 	}
 
